@@ -205,6 +205,16 @@ def needWrite (s : Schema) : Bool := s.nFieldsP < s.nFields || s.nTagKeysP < s.n
 def markPersisted (s : Schema) : Schema :=
   { s with field := fun n => markP (s.field n), nFieldsP := s.nFields,
            tagKey := fun n => markP (s.tagKey n), nTagKeysP := s.nTagKeys }
+/-- `MarkPersistedPrefix` (repair): only the items that `pre` (the object when it was written) had -/
+def markPrefix (s pre : Schema) : Schema :=
+  { s with field := fun n => match pre.field n with
+             | some _ => markP (s.field n)
+             | none => s.field n,
+           nFieldsP := pre.nFields,
+           tagKey := fun n => match pre.tagKey n with
+             | some _ => markP (s.tagKey n)
+             | none => s.tagKey n,
+           nTagKeysP := pre.nTagKeys }
 /-- what `Schema.Write` emits (the not yet persisted items), as `UnmarshalFromPersist` reads it back -/
 def increment (s : Schema) : Schema :=
   { field := fun n => newOnly (s.field n), nFields := s.nFields - s.nFieldsP, nFieldsP := s.nFields - s.nFieldsP,
@@ -311,6 +321,14 @@ def finish (s : SchemaStore) : SchemaStore :=
   | _ => s
 
 def flush (s : SchemaStore) : SchemaStore := s.commit.finish
+
+/-- repair of the locked tail: mark persisted only what was there when the schema was written
+(`pre` = the objects as they were at the kv commit) -/
+def finishWritten (s : SchemaStore) (pre : Nat → Schema) : SchemaStore :=
+  match s.frz with
+  | some (f, false) =>
+    { s with heap := fun o => if f (s.owner o) = some o then (s.heap o).markPrefix (pre o) else s.heap o, frz := none }
+  | _ => s
 
 def recover (s : SchemaStore) : SchemaStore := { disk := s.disk }
 
@@ -442,6 +460,8 @@ structure Cfg where
   seqWriteThrough : Bool := false
   /-- repair: the series limit is checked inside createFn, before anything is stored -/
   seriesLimitFirst : Bool := false
+  /-- repair: the schema flush marks persisted only what it wrote -/
+  schemaMarkWritten : Bool := false
   deriving DecidableEq, Repr
 
 structure Node where
@@ -558,6 +578,16 @@ def metaFlushStep (nd : Node) : Nat → Node
 def metaFlushPrefix (nd : Node) (k : Nat) : Node := (List.range k).foldl metaFlushStep nd
 
 def metaFlush (nd : Node) : Node := nd.metaFlushPrefix 5
+
+/-- a metadata flush during which `GenFieldID(m, f)` runs between the kv commit of the schema family
+and the locked tail of `metricSchemaStore.Flush` (the flush runs in a goroutine of its own) -/
+def metaFlushFieldInWindow (c : Cfg) (nd : Node) (m f : Nat) : Node × GenOut :=
+  let nd1 := nd.metaFlushPrefix 3
+  let pre := nd1.schema.heap
+  let nd2 := { nd1 with schema := nd1.schema.commit }
+  let r := nd2.genFieldID c m f
+  let sch := if c.schemaMarkWritten then r.1.schema.finishWritten pre else r.1.schema.finish
+  (({ r.1 with schema := sch } : Node).metaFlushStep 4, r.2)
 
 def indexPrepare (nd : Node) (shard : Nat) : Node := nd.setShard shard (nd.shards shard).prepareFlush
 
